@@ -62,6 +62,20 @@ def pvt_flood_scenario(rng, sid, nmsg):
           "m quiesce", "m shutdown", "m sleep 20000", "m shutdown_wait", "m destroy", "m reset"]
     return "\n".join(L) + "\n", {"n": n, "flood": "pvt"}
 
+def hold_scenario(rng, sid):
+    """workers are kept inside their stop hook (state STOPING: the loop has ended, the queue is never read again) while
+    other threads keep sending to them: plain sends must be refused, FORCE sends must run directly"""
+    n = rng.choice([1, 2, 3])
+    L = ["m pool %d 0" % n, "m start 0", "m waitrun", "m stophold 3", "m shutdown", "m waitheld %d" % n]
+    base = (sid % 40) * 1000 + 500
+    for k in range(n):
+        for f in (0, 2, 4, 6, 1):
+            L.append("m send %d %d %d" % (k, f, base)); base += 1
+    L += ["e1 send 0 0 %d" % base, "e1 send 0 2 %d" % (base + 1), "m spawn e1", "m join e1"]
+    L += ["m open 3"] * n
+    L += ["m shutdown_wait", "m destroy", "m reset"]
+    return "\n".join(L) + "\n", {"n": n, "hold": True}
+
 def segments(evs):
     """cut the concatenated trace into pool lives; the C05 segment of a life ends at call.shutdown"""
     out = []; cur = []; live = True
@@ -107,6 +121,8 @@ def run(ctx):
             sid += 1
             if sid % 8 == 3:
                 t, m = pvt_flood_scenario(rng, sid, 240 if ctx.quick else 900)
+            elif sid % 8 == 5:
+                t, m = hold_scenario(rng, sid)
             else:
                 t, m = gen_scenario(rng, sid, big=not ctx.quick or sid % 6 == 0)
             texts.append(t); metas.append(m)
@@ -117,27 +133,22 @@ def run(ctx):
             rc, out, evs = tp.run_scenario(exe, "".join(texts), d, ctx.seed + sid, "c05_%d" % sid, timeout=400)
             hang = [e for e in evs if e["e"] in ("Hang", "BadOp", "Crash")]
         if rc != 0 or hang:
-            # a hang in shutdown/teardown belongs to C11; anything else is an infrastructure problem here
-            if hang and all(h.get("where") in ("watchdog",) for h in hang) and any(e["e"] == "call.shutdown" for e in evs[-60:]):
-                ctx.log("teardown hang observed (C11 territory), segment truncated")
+            # a crash/hang during teardown is the life-cycle property's business (known races of C11): the trace is
+            # validated up to it; anything before a shutdown call is an infrastructure problem of this run
+            k = evs.index(hang[0]) if hang else len(evs)
+            if hang and any(e["e"] == "call.shutdown" for e in evs[max(0, k - 400):k]) and hang[0]["e"] in ("Crash", "Hang"):
+                ctx.log("teardown %s observed (C11 territory), trace validated up to it" % hang[0]["e"])
+                evs = evs[:k + 1]
             else:
                 raise common.Infra("tp_drv failed rc=%s hang=%s\n%s" % (rc, hang[:2], out[-2000:]))
-        evs = tp.rename_pvt(evs)
-        allsel = []
-        for seg in segments(evs):
-            if not seg or seg[-1]["e"] != "Reset": seg = seg + [{"e": "Reset", "n": 0, "t": 100}]
-            allsel += seg
-        ok, info, r = tp.validate(ctx, allsel, d, "c05_%d" % sid, KEEP)
+        from rig.checks import c11
+        ok, info, r = tp.validate(ctx, c11.prep(evs), d, "c05_%d" % sid, c11.KEEP)
         total_ev += info["events"]; ntr += len(texts)
         if not samples: samples.append({"scenario": texts[0].split("\n")[:12], "events_validated": info["events"]})
         if not ok:
             # repeat before reporting: same scenarios, same seed
             rc2, out2, evs2 = tp.run_scenario(exe, "".join(texts), d, ctx.seed + sid, "c05r_%d" % sid, timeout=240)
-            evs2 = tp.rename_pvt(evs2); sel2 = []
-            for seg in segments(evs2):
-                if not seg or seg[-1]["e"] != "Reset": seg = seg + [{"e": "Reset", "n": 0, "t": 100}]
-                sel2 += seg
-            ok2, info2, _ = tp.validate(ctx, sel2, d, "c05r_%d" % sid, KEEP)
+            ok2, info2, _ = tp.validate(ctx, c11.prep(evs2), d, "c05r_%d" % sid, c11.KEEP)
             if not ok2:
                 ev = (info.get("context") or [{}])[-1]
                 ctx.fail("trace:TpMsg:rejected-at:%s" % ev.get("e"), json.dumps(info, indent=1)[:4000],
